@@ -294,6 +294,7 @@ func Run[C any](t *testing.T, id string, gen func(*rapid.T) C, check func(C) Res
 		if err := json.Unmarshal(raw, &c); err != nil {
 			return Result{}, nil, err
 		}
+		defer watchCase(p)()
 		return safeCheck(check, c), raw, nil
 	}
 
@@ -348,10 +349,13 @@ func Run[C any](t *testing.T, id string, gen func(*rapid.T) C, check func(C) Res
 		if err != nil {
 			rt.Fatalf("case not serialisable: %v", err)
 		}
+		cur := ""
 		if noteCurrent {
-			NoteCurrent(id, c)
+			cur = NoteCurrent(id, c)
 		}
+		done := watchCase(cur)
 		r := safeCheck(check, c)
+		done()
 		s.record(caseJSON, c, r)
 		if r.Violation != "" {
 			// rapid re-runs the minimal case last, so the last write is the shrunk one. (Recorded here:
